@@ -49,6 +49,10 @@ fn arb_wsdl() -> impl Strategy<Value = WsdlSpec> {
     })
 }
 
+pub fn arb_wsdl_pub() -> impl Strategy<Value = WsdlSpec> {
+    arb_wsdl()
+}
+
 pub fn render(spec: &WsdlSpec) -> FileSet {
     let tns = "http://example.org/det/svc";
     let tys = "http://example.org/det/types";
